@@ -23,9 +23,10 @@ import (
 )
 
 type vxRefNode struct {
-	key  string // elements below the root joined with "\x00" ("" = the root itself)
-	kind int
-	d    *vxDirent
+	key       string // elements below the root joined with "\x00" ("" = the root itself)
+	kind      int
+	d         *vxDirent
+	dirTarget []string // for a symbolic link to a directory: the directory's elements
 }
 
 type vxRefTree struct {
@@ -75,7 +76,7 @@ func (t *vxRefTree) add(fs *vxFS, parent []string, name string, kind int, symExi
 	return elems
 }
 
-var vxWalkNames = []string{"a", "b", "..", "c d", "\xc3\xa9", "..."} // "..." is an ordinary name (it exists nowhere in the tree)
+var vxWalkNames = []string{"a", "b", "..", "c d", "\xc3\xa9", "...", "L"} // "..." is an ordinary name (it exists nowhere in the tree)
 
 func vxQidAgrees(q Qid, n *vxRefNode) bool {
 	return vxAll(q.Path == n.d.in.ino, (q.Type&QTDIR != 0) == (n.kind == vxKDir), (q.Type&QTSYMLINK != 0) == (n.kind == vxKLink))
@@ -92,6 +93,10 @@ func vxH16Walk(dotu bool, nmax int) {
 	t.add(fs, nil, "b", vxKFile, true)
 	cd := t.add(fs, nil, "c d", vxKDir, true)
 	t.add(fs, nil, E, vxKLink, true) // symlink to the file "b"
+	// a symbolic link to the directory "a": walking through it continues in that directory, as the local path does
+	lk := t.add(fs, nil, "L", vxKLink, true)
+	t.find(lk).d.in.target = "a"
+	t.find(lk).dirTarget = a
 	// depth 2
 	aa := t.add(fs, a, "a", vxKDir, true)
 	t.add(fs, a, "b", vxKFile, true)
@@ -120,25 +125,39 @@ func vxH16Walk(dotu bool, nmax int) {
 	}
 
 	// reference resolution
-	cur := append([]string{}, start...)
+	cur := append([]string{}, start...)  // the names walked so far (the fid's path)
+	ccur := append([]string{}, start...) // where that is in the tree (symbolic links to directories resolved)
 	var objs []*vxRefNode
 	m := 0
 	above := false
+	viaLink := false
 	for _, nm := range names {
-		if t.find(cur).kind != vxKDir {
+		here := t.find(ccur)
+		if here.kind == vxKLink && here.dirTarget != nil && t.find(here.dirTarget).d.exists {
+			ccur = append([]string{}, here.dirTarget...)
+			here = t.find(ccur)
+			viaLink = true
+		}
+		if here.kind != vxKDir {
 			break // nothing, not even "..", can be resolved inside a non-directory
 		}
 		if nm == ".." {
+			if viaLink {
+				// ".." after a symbolic link: the lexical parent and the target's parent differ; the statement is silent
+				above = true
+				break
+			}
 			if len(cur) == 0 {
 				above = true
 				break
 			}
+			ccur = ccur[:len(ccur)-1]
 			cur = cur[:len(cur)-1]
-			objs = append(objs, t.find(cur))
+			objs = append(objs, t.find(ccur))
 			m++
 			continue
 		}
-		nx := t.find(append(append([]string{}, cur...), nm))
+		nx := t.find(append(append([]string{}, ccur...), nm))
 		if nx == nil {
 			break
 		}
@@ -146,6 +165,7 @@ func vxH16Walk(dotu bool, nmax int) {
 			break
 		}
 		cur = append(cur, nm)
+		ccur = append(ccur, nm)
 		objs = append(objs, nx)
 		m++
 	}
@@ -196,7 +216,7 @@ func vxH16Walk(dotu bool, nmax int) {
 			return
 		}
 		vxAssert(vxSamePath(nuf.path, target), "complete-walk-newfid-designates-target")
-		vxAssert(nf.Type&(QTDIR|QTSYMLINK) == vxKindType(t.find(cur).kind), "complete-walk-newfid-type")
+		vxAssert(nf.Type&(QTDIR|QTSYMLINK) == vxKindType(t.find(ccur).kind), "complete-walk-newfid-type")
 		if newno != 1 {
 			vxAssert(pool[1] == f, "complete-walk-fid-still-valid")
 			vxAssert(uf.path == startPath, "complete-walk-fid-path-unchanged")
